@@ -16,6 +16,13 @@ CHECKS = {
         "negative and integer axes, the default-mode context manager and preserve_array, plus trace and every one-/two-pair single-array einsum; the result embedded "
         "into the tables of the uncontracted operand indices must equal numpy.tensordot of the embedded operands exactly, with the combined charge and the free legs' directions.",
    note="Trusted: numpy on small dense arrays; the harness embedding (mc/arrays.py embed); integer tags make equality exact. Bounded to PLANS in mc/checks/c02.py."),
+ "C03": dict(engine="E-enum", design_ref="DESIGN.md 5 C03, 4.2",
+   technique="exhaustive enumeration of fermionic pairs / single arrays x permutations / axes / modes on the real code; reference = independent Grassmann word model (inversion-count signs), exact integer tags",
+   text="Every fermionic pair (a, b, axes) and single array of the bounded universe (<=3 indices per operand, <=3 charges per index; all directions, even and odd charges "
+        "with both label orders, pending-sign tables, independent sparsity) is run through the real tensordot (fused / blockwise / auto, autoray, int axes), @, transpose (every "
+        "permutation), trace and einsum and compared element for element - plus charge, directions and remaining labels - with the word-model reference in mc/ref_graded.py. "
+        "This covers exhaustively the clause 'all small index structures' of the quantifier; the 'randomly beyond' clause is sampling and is not claimed.",
+   note="Trusted: the word model as specification of graded semantics ((bra,ket) adjacency = +1, (ket,bra) = -1; labels left of the axes); numpy; integer tags."),
 }
 
 _ALL = ["C%02d" % i for i in range(1, 21)]
